@@ -574,7 +574,19 @@ def _thread_result_tests(fd, log):
                 if e["op"] != "=":
                     return "other"
                 v = _const_of(exprs, e["c"][1])
-                return v if v is not None else "other"
+                if v is not None:
+                    return v
+                # `return (a == b);`: a side-effect free truth value - the path branches on it directly
+                r = e["c"][1]
+                k = 0
+                while r is not None and r >= 0 and exprs[r]["k"] in ("cast", "paren") and exprs[r].get("c") and k < 6:
+                    r = exprs[r]["c"][0]
+                    k += 1
+                re_ = exprs[r]
+                if ((re_["k"] == "bin" and re_.get("op") in ("<", "<=", ">", ">=", "==", "!=", "&&", "||")) or
+                        (re_["k"] == "un" and re_.get("op") == "!")) and _pure_info(fd, r) is not None:
+                    return ("expr", r)
+                return "other"
             if e["k"] == "decl" and any(v.get("did") == did for v in e.get("vars", [])):
                 return "other"
         return None
@@ -629,6 +641,15 @@ def _thread_result_tests(fd, log):
                         work.append((pp, pid))
                 continue
             if v == "other":
+                continue
+            if isinstance(v, tuple):
+                nid = max(blocks) + 1
+                nb = {"id": nid, "elems": [v[1]], "succs": [T, F] if pos else [F, T],
+                      "term": {"kind": "IfStmt", "cond": v[1], "line": exprs[v[1]].get("line", 0)}}
+                fd["blocks"].append(nb)
+                blocks[nid] = nb
+                P["succs"] = [nid]
+                n += 1
                 continue
             target = T if ((v != 0) == pos) else F
             if via != J["id"]:
@@ -1173,7 +1194,9 @@ def _propagate_new_locals(fd, known, log):
                         if v.get("did") in ren:
                             v["name"] = ren[v["did"]][1]
             log.add("N4c", "%s(): %s" % (fd["name"], ", ".join("local %s is %s under a new name" % x for x in sorted(ren.values()))))
-            known_locals = set(known["locals"])
+            # the renamed local may just as well be a new temporary that happens to have the type of one that was
+            # removed: it stays a candidate for N4 (a single pure definition is propagated, whatever it is called)
+            known_locals = set(known["locals"]) - {old for _new, old in ren.values()}
     cands = {}
     for i, e in enumerate(exprs):
         if e["k"] == "decl":
